@@ -419,6 +419,8 @@ struct World
 		s.connected = false; s.connecting = false; ++s.gen;
 	}
 
+	unsigned dirty_ec_toggle = 0;
+
 	void op_open(int i, bool v4)
 	{
 		Slot& s = slots[std::size_t(i)];
@@ -535,7 +537,10 @@ struct World
 	{
 		Slot& s = slots[std::size_t(i)];
 		tr(fmt("s%d.bind(%s)", i, ap_str(a, port).c_str()));
+		// callers commonly reuse one error_code object: every other call gets one that still holds an
+		// unrelated earlier failure, which a successful bind has to clear
 		error_code ec;
+		if (++dirty_ec_toggle & 1) { ec = boost::asio::error::connection_reset; R().count("binds_called_with_stale_error_code"); }
 		if (s.kind == K_UDP) API(s.udp->bind(ip::udp::endpoint(a, std::uint16_t(port)), ec));
 		else API(s.ts()->bind(ip::tcp::endpoint(a, std::uint16_t(port)), ec));
 		if (!s.open)
@@ -552,6 +557,7 @@ struct World
 		Slot& s = slots[std::size_t(i)];
 		tr(fmt("s%d.listen", i));
 		error_code ec;
+		if (++dirty_ec_toggle & 1) ec = boost::asio::error::connection_reset;
 		API(s.acc->listen(5, ec));
 		bool const should = s.open && s.bound;
 		if (should && ec) { bad("listen-failed", fmt("listen() on open, bound slot %d failed: %s", i, ec.message().c_str())); return; }
